@@ -1,8 +1,80 @@
-(* C17/Property.v — placeholder while the proofs are being written *)
-From Coq Require Import NArith List Bool.
-From IRV Require Import Base.Exn C03.Model C03.Canon.
-Import ListNotations.
+(* C17/Property.v — ONLY the property theorems of C17 ("deserializing any proto terminates with an error
+   or a consistent IR"), over the executable model of serde.deserialize_* / serialize_* in C03/Model.v.
 
-Theorem C17_deser_total : forall p, (exists h m, deser_model p = Ok (h, m)) \/ (exists e, deser_model p = Raise e).
+   Full statement of the property and what is proved here:
+   (1) termination for every proto ........ C17_deser_total  (deser_model is a Gallina function defined by
+       structural recursion on the proto, no fuel: accepted by Coq's guard checker = the termination
+       proof, including cyclic/unsorted node order and dangling/duplicated/empty names.  Python's own
+       recursion limit on deeply nested subgraphs is modelled-not-verified: there the code raises
+       RecursionError, which is an "error" outcome of the property anyway.)
+   (2) raises or returns a consistent IR ... C17_consistent   (FULL: no well-formedness hypothesis on p; Inv =
+       C01's I1-I7: use-def both directions, producer/index, node.graph, ownership flags, initializers keyed
+       by name, inputs/initializers without producer, owner iff role.)
+   (3) re-serialization is a fixpoint ...... REFUTED on the code as it exists: C17_ser_fixpoint_refuted
+       (witness replayed on the implementation on every run; known finding
+       fixpoint-initializer-empty-value-info).  The positive statement
+         C17_ser_fixpoint : deser p = Ok (h,m) -> ser h m = Ok (h1,q) ->
+                            exists h' m' h'' , deser q = Ok (h',m') /\ ser h' m' = Ok (h'', q)
+       is NOT proved, not even away from the refuting site; it is evaluated by vm_compute on every generated
+       case (Canon.model_fixpoint) and compared with the implementation's behaviour.
+   (4) no file access ...................... holds of the model by construction (deser_model / ser_model have
+       no file-system component: C17_deser_function_of_proto); on the implementation it is observed with
+       audit hooks on every run (not a theorem). *)
+From Coq Require Import NArith List Bool Arith.
+From IRV Require Import Base.Exn C03.Model C03.Canon C03.Inv C17.Top.
+Import ListNotations.
+Open Scope N_scope.
+
+Theorem C17_deser_total :
+  forall p, (exists h m, deser_model p = Ok (h, m)) \/ (exists e, deser_model p = Raise e).
 Proof. intro p. destruct (deser_model p) as [[h m]|e]; [left; eauto | right; eauto]. Qed.
 Print Assumptions C17_deser_total.
+
+(* Whatever the proto, if deserialization returns, every use-def and ownership link of the IR is consistent. *)
+Theorem C17_consistent : forall p h m, deser_model p = Ok (h, m) -> Inv h.
+Proof. exact deser_model_inv. Qed.
+Print Assumptions C17_consistent.
+
+(* The outcome and the IR depend on the proto only (no ambient state, in particular no file system). *)
+Theorem C17_deser_function_of_proto : forall p r1 r2, deser_model p = r1 -> deser_model p = r2 -> r1 = r2.
+Proof. intros; congruence. Qed.
+Print Assumptions C17_deser_function_of_proto.
+
+(* ---- non-vacuity: a malformed proto that IS accepted.  Names: 1 = "a", 2 = "b", 3 = "x", 4 = "zz".
+   graph inputs [a; a] (duplicated), initializer for the input a, nodes in cyclic/unsorted order
+   (n0 reads b and produces x,"" ; n1 reads x, a dangling name zz and an empty input, produces b and has a
+   subgraph that captures x, b (declared later) and zz (placeholder of the outer scope)),
+   graph outputs [b; unknown name 9; a]. *)
+Definition ex_sub : gproto :=
+  Gp 0 0 [mkVI 1 7 false] [mkVI 5 0 false] [] []
+     (NCons (Np 0 11 0 [3; 2; 4; 1] [5] ANil) NNil).
+Definition ex_proto : mproto :=
+  mkMP 1 (Gp 0 0 [mkVI 1 7 false; mkVI 1 0 false] [mkVI 2 0 false; mkVI 9 0 false; mkVI 1 0 false]
+             [mkTP 1 21 8 false false] [mkVI 3 6 false]
+             (NCons (Np 0 10 0 [2] [3; 0] ANil)
+             (NCons (Np 0 10 0 [3; 4; 0] [2] (ACons (AGraph 12 ex_sub) ANil)) NNil))) [].
+Example C17_consistent_nonvacuous :
+  exists h m, deser_model ex_proto = Ok (h, m) /\ inv_b h = true /\ length (hv h) = 9%nat /\ length (hn h) = 3%nat.
+Proof. vm_compute. eexists _, _. repeat split. Qed.
+
+(* the two candidates named in the design are rejected, not accepted inconsistently *)
+Example C17_repeated_output_rejected :
+  deser_model (mkMP 1 (Gp 0 0 [mkVI 1 0 false] [] [] [] (NCons (Np 0 10 0 [1] [2; 2] ANil) NNil)) []) = Raise ValueError.
+Proof. vm_compute. reflexivity. Qed.
+Example C17_output_named_like_input_rejected :
+  deser_model (mkMP 1 (Gp 0 0 [mkVI 1 0 false] [] [] [] (NCons (Np 0 10 0 [] [1] ANil) NNil)) []) = Raise ValueError.
+Proof. vm_compute. reflexivity. Qed.
+
+(* ---- the re-serialization fixpoint is refuted by the faithful model (as by the code):
+   initializer w (name 1, tensor-derived payload 5) with a type-less value_info entry for w (payload 0). *)
+Definition fix_witness : mproto :=
+  mkMP 1 (Gp 2 0 [] [] [mkTP 1 3 5 false false] [mkVI 1 0 false] NNil) [].
+Theorem C17_ser_fixpoint_refuted :
+  exists p h m h1 q,
+    deser_model p = Ok (h, m) /\ ser_model [] h m = Ok (h1, q) /\
+    exists h' m' h'' q', deser_model q = Ok (h', m') /\ ser_model [] h' m' = Ok (h'', q') /\ q' <> q.
+Proof.
+  exists fix_witness. vm_compute. eexists _, _, _, _. split; [reflexivity|]. split; [reflexivity|].
+  eexists _, _, _, _. split; [reflexivity|]. split; [reflexivity|]. discriminate.
+Qed.
+Print Assumptions C17_ser_fixpoint_refuted.
